@@ -68,6 +68,9 @@ func c27Gen(seed uint64, idx, total int, tier string) any {
 	r := vfNewRand(seed, "c27")
 	c := &c27Case{Mode: "coop", SchedSeed: r.U64(), Strat: vfGenStrategy(r)}
 	n := r.Range(1, 10)
+	if r.Bool(0.1) {
+		n = r.Range(17, 26) // more than the mux keeps for endpoints that do not exist yet: the surplus may be dropped, the order may not change
+	}
 	for i := 0; i < n; i++ {
 		var p c27Pkt
 		switch x := r.Intn(20); {
@@ -395,6 +398,10 @@ func c27Run(t *testing.T, cj []byte, res *vfResult) {
 			}
 			j++
 		}
+		if len(dgs) > 15 {
+			res.stat("runs_beyond_the_pending_queue_cap", 1)
+			continue // (completeness is promised below the queue's capacity only; order and exclusiveness always)
+		}
 		if res.Verdict == "ok" && len(have) != len(want) {
 			res.violate("datagram-for-existing-endpoint-lost", fmt.Sprintf("%s endpoint read %d of %d datagrams of its class (arrival %v, read %v)", k, len(have), len(want), want, have))
 		}
@@ -408,10 +415,10 @@ func c27Run(t *testing.T, cj []byte, res *vfResult) {
 func init() {
 	vfRegister(&vfProp{
 		ID: "C27", Level: "exploration", ReplayClass: "exact",
-		Rule: "run 0 enumerates all 256x256 (first byte, second byte) x 6 length classes {0,1,2,3,4,>=5} through MatchDTLS/MatchSRTP/MatchSRTCP against the RFC 7983 table (complete); every other run feeds 1-10 seeded datagrams through a simulated net.Conn into the real mux while one task per endpoint class calls NewEndpoint, all scheduled by the seeded cooperative scheduler at every lock site of mux.go; non-trivial = >=1 preemption and >=1 datagram of a created class, distinct = hash of (arrival order, per-endpoint reads, schedule)",
+		Rule: "run 0 enumerates all 256x256 (first byte, second byte) x 6 length classes {0,1,2,3,4,>=5} through MatchDTLS/MatchSRTP/MatchSRTCP against the RFC 7983 table (complete); every other run feeds 1-10 (one run in ten: 17-26, beyond the capacity of the pending queue, where only order and exclusiveness are judged) seeded datagrams through a simulated net.Conn into the real mux while one task per endpoint class calls NewEndpoint, all scheduled by the seeded cooperative scheduler at every lock site of mux.go; non-trivial = >=1 preemption and >=1 datagram of a created class, distinct = hash of (arrival order, per-endpoint reads, schedule)",
 		Real: []string{"internal/mux (mux.go, muxfunc.go, endpoint.go; instrumented copy)", "pion/transport packetio.Buffer"},
 		Stub: []string{"the ICE net.Conn under the mux is a channel-backed simulated conn"},
-		Assumptions: []string{"at most 10 datagrams per run, below the code's pending-queue cap (15), which the property does not promise to exceed",
+		Assumptions: []string{"completeness is judged in runs of at most 10 datagrams, below the code's pending-queue cap (15), which the property does not promise to exceed",
 			"datagrams of length 2-3 whose second byte is 192-223 are malformed for both RTP and RTCP: either SRTP or SRTCP classification is accepted, exclusivity is still required"},
 		Shrink: []string{"pkts", "creators", "strat.script"},
 		Gen:    c27Gen, Run: c27Run,
